@@ -133,6 +133,8 @@ class IpcCommand:
             return 0
         elif isinstance(ret, tuple):
             code, response = ret
+            # the bash side reads exactly one line per reply
+            response = " ".join(str(response).splitlines())
             return f"{code}\x07{response}"
         elif isinstance(ret, (int, str)):
             return f"0\x07{ret}"
